@@ -62,3 +62,11 @@ META["C08"] = {
     "text": "Exploration with an exhaustive corruption grid: per codec 12 (60) valid base frames x {every offset of the first 96 bytes x width 1/2/4 x value 0,1,2,3,max,max/2,orig+-1; all 256 values of each of the first 32 bytes; truncation at every offset; 40 splices} + random inputs (3.6e5 inputs quick) go through XProtocol.Decode, the matcher and the real xprotocol stream connection (race build => checkptr). HTTP/2: valid connection streams built with x/net/http2 corrupted the same way plus per-frame length/type/flags/stream-id grids and a CONTINUATION flood, through the real HTTP/2 server stream connection; the HPACK decoder alone on corrupted blocks (1.2e6 inputs quick). Violations: a panic escaping, a call that never returns (20 s without progress), allocation beyond 64x input + 4 MiB for one call, 'need more' that consumed bytes, a frame that consumed nothing, any process-fatal event.",
     "note": "Inputs are written to disk (pwrite) before each call so a fatal is attributable. ASan/MSan/valgrind add nothing for pure-Go decoders and are not used. Third-party parsers (hessian, thrift, TarsGo) are inside the judged calls because MOSN's decoders delegate to them.",
 }
+
+META["C03"] = {
+    "engine": "vworker",
+    "design_ref": "DESIGN.md §3 C03, §2.4",
+    "technique": "event-log oracle at the client boundary (exactly one terminal outcome per request token) over a running proxy with scripted upstream fault plans, plus schedule steering through hook points that parks timer callbacks / upstream response / upstream resets before their CAS and releases them in every order; hang = no terminal event AND the proxy still counts the request active",
+    "text": "Exploration with a bounded-exhaustive steered sub-space: a real in-process MOSN with HTTP/1, bolt and HTTP/2 listeners, two scripted upstream hosts per protocol plus empty / dead / unknown clusters; ~530 (~8600) requests per run over routes {plain, retry policy with per-try timeout, unknown cluster, empty cluster, dead host, no route} x per-attempt upstream plans {reply, 5xx, 4xx, delayed, stall, close, RST, half response, late reply, large body} x {answered, abandoned by the client}, 8 concurrent clients per protocol. Steered: one request at a time with plans timed to collide; the goroutines of the per-try timer, the global timer, the upstream response and the first two upstream resets are parked just before their compare-and-swap and released in 12 of the 120 orders per (protocol, plan) in quick, all 120 in thorough. Oracle: exactly one response per non-abandoned request; two responses, or no terminal event for 15 s (all timeouts <= 1.5 s) while MOSN still counts the request active, are violations; request gauges must return to zero.",
+    "note": "Steering only delays goroutines at existing preemption points (never holds them forever): every produced order is a legal schedule. The 15 s client watchdog is not a verdict by itself — it needs corroboration from MOSN's own active-request gauge. Reset reasons needing kernel-level faults (write timeout) are produced only through close/RST by the peer.",
+}
